@@ -242,6 +242,64 @@ def replay_arith(L, coded, iterated_):
         F.String2Key.derive_key = saved
 
 
+@ob('O6.6b', 'the key-encryption key of a protected key is derived from the UTF-8 octets of a text passphrase exactly as given (what an independent implementation derives): '
+             'shared with C12-O12.3c, on the real derive_key', 'as C12-O12.3c: passphrase of 0..2 symbolic characters over all of Unicode; Simple and Salted S2K', cond_timeout={'q': 240, 't': 900},
+    partitions=[['spec == 0'], ['spec == 1']])
+def text_passphrase_octets(spec: int, salt: bytes, pw: str) -> bool:
+    """
+    pre: spec in (0, 1)
+    pre: len(salt) == 8
+    pre: len(pw) <= 2
+    post: _
+    """
+    saved = F.String2Key.derive_key
+    F.String2Key.derive_key = encfix.REAL_DERIVE_KEY
+    try:
+        return _c12.text_passphrase(spec, salt, pw)
+    finally:
+        F.String2Key.derive_key = saved
+
+
+@ob('O6.7', 'a foreign protected key that was unlocked and locked again exports the octets it was imported with: nothing of the unlock (integers, checksum) stays behind in the export',
+    'DSA / RSA secret key packet with S2K usage 254 or 255 (iterated S2K, AES-128); the cipher stand-in returns the well-formed secret string with 2 symbolic octets; unlock scope ends normally or by an exception',
+    cond_timeout={'q': 280, 't': 900}, flags=('symmpi',), partitions=[['u255'], ['not u255']])
+def export_after_unlock(u255: bool, rsa: bool, raises: bool, x: int, y: int) -> bool:
+    """
+    pre: 128 <= x < 256 and 128 <= y < 256
+    post: _
+    """
+    alg, pubmat, mk = materials(0 if rsa else 1)
+    body = pub_body(alg, pubmat) + bytes([255 if u255 else 254, 7, 3, 2]) + bytes(8) + bytes([96]) + bytes(16) + b'\x01\x02\x03\x04\x05\x06' * 6
+    raw = pack(5, body, 0)
+    pkt = Packet(bytearray(raw))
+    before = bytes(pkt.__bytearray__())
+    if before != raw:
+        return False
+    sec = mk(x, y, x, y)
+    if u255:
+        cs = sum(sec) % 65536
+        pt = sec + bytes([cs // 256, cs % 256])
+    else:
+        pt = sec + inj_digest(sec)
+    key = PGPKey()
+    key._key = pkt
+    Cipher.reset()
+    Cipher.adversarial = [pt]
+    entered = False
+    try:
+        with key.unlock('pw'):
+            entered = True
+            if raises:
+                raise KeyError('inside the scope')
+    except KeyError:
+        pass
+    finally:
+        Cipher.adversarial = None
+    if not entered:
+        return False
+    return bytes(pkt.__bytearray__()) == before and all(v == 0 for v in privfields(pkt)) and not key.is_unlocked
+
+
 @ob('O6.4', 'the exported protected key depends on the secret integers only through the cipher: with a cipher whose output ignores its input the export is '
             'the same octets whatever the secret integers are', 'algorithm in {RSA, DSA, EdDSA}; 4 symbolic non-zero secret octets (same integer sizes: the ciphertext length necessarily equals the plaintext length) against fixed ones', cond_timeout={'q': 280, 't': 900},
     flags=('symmpi',), partitions=[['ai == 0'], ['ai == 1'], ['ai == 3']])
@@ -301,7 +359,7 @@ def foreign_forms(spec: int, u255: bool, x0: int, x1: int) -> bool:
     return False
 
 
-SANITY = ['replay_arith(1100, 0, True)', 'replay_arith(0, 0, False)', 'protect_layout(0, 0x81, 2, 3, 4, "pw", bytes(range(16)), bytes(range(8)))', 'protect_layout(1, 0xFF, 0, 0, 0, "", bytes(16), bytes(8))', 'protect_layout(3, 0x80, 9, 9, 9, "\\u00e9", bytes(range(16)), b"abcdefgh")',
+SANITY = ['export_after_unlock(%s, %s, %s, 0x81, 0x92)' % (u, r, x) for u in (True, False) for r in (True, False) for x in (True, False)] + ['text_passphrase_octets(1, b"12345678", "\\u00e9\\u00fc")', 'text_passphrase_octets(0, b"12345678", "a")'] + ['replay_arith(1100, 0, True)', 'replay_arith(0, 0, False)', 'protect_layout(0, 0x81, 2, 3, 4, "pw", bytes(range(16)), bytes(range(8)))', 'protect_layout(1, 0xFF, 0, 0, 0, "", bytes(16), bytes(8))', 'protect_layout(3, 0x80, 9, 9, 9, "\\u00e9", bytes(range(16)), b"abcdefgh")',
           'unlock_accept(True, b"\\x00\\x08\\x05\\x00\\x0d")', 'unlock_accept(True, b"\\x00\\x08\\x05\\x00\\x0e")', 'unlock_accept(False, b"\\x00\\x08\\x05" + inj_digest(b"\\x00\\x08\\x05"))',
           'unlock_accept(False, bytes(23))', 'unlock_scope(0, 0x81, 2, 3, 4, 0x91, 7, False, True)', 'unlock_scope(3, 0x81, 2, 3, 4, 0x91, 7, True, True)', 'unlock_scope(0, 0x81, 2, 3, 4, 0x91, 7, False, False)',
           'unlock_partial_failure(0, 0x81, 0x82, 0x83, 0x84, 0x91, 0x92)', 'unlock_partial_failure(3, 0x81, 0x82, 0x83, 0x84, 0x91, 0x92)', 'export_independent(0, 0xF1, 9, 9, 9)', 'export_independent(3, 0xF1, 9, 9, 9)', 'foreign_forms(3, False, 1, 2)', 'foreign_forms(0, True, 1, 2)', 'foreign_forms(101, False, 0, 0)', 'foreign_forms(1, True, 0, 0)']
